@@ -51,6 +51,10 @@ struct Agent {
 };
 
 // hand-made va_list: everything comes from the overflow area
+// The x86-64 SysV va_list, written through its documented layout (g++ treats __va_list_tag as opaque, clang exposes the members)
+struct SysVVaList { unsigned gp_offset, fp_offset; void *overflow_arg_area; void *reg_save_area; };
+static_assert(sizeof(va_list) == sizeof(SysVVaList), "x86-64 SysV va_list expected");
+inline void make_va_list(va_list ap, void *area) { SysVVaList raw{48, 304, area, nullptr}; memcpy((void *)&ap[0], &raw, sizeof raw); }
 struct VaBuilder {
 	std::vector<uint64_t> slots;
 	void push_int(uint32_t v) { slots.push_back(0xA5A5A5A500000000ull | v); }    // the upper half of an int slot is garbage
@@ -58,7 +62,7 @@ struct VaBuilder {
 	uint64_t *area = nullptr;
 	void finish(Ctx &c) { area = (uint64_t *)malloc(slots.size() * 8); c.arena.push_back({area, nullptr}); if(!slots.empty()) memcpy(area, slots.data(), slots.size() * 8); }
 	void init(va_list ap) {
-		ap[0].gp_offset = 48; ap[0].fp_offset = 304; ap[0].overflow_arg_area = area; ap[0].reg_save_area = nullptr;
+		make_va_list(ap, area);
 	}
 };
 
